@@ -12,6 +12,8 @@ mod splitneutral;
 mod summary;
 mod symbase;
 mod questrade;
+mod csvrt;
+mod layout;
 
 use std::io::Write;
 
@@ -21,6 +23,33 @@ fn arg_val(args: &[String], name: &str, default: u64) -> u64 {
         .and_then(|i| args.get(i + 1))
         .and_then(|v| v.parse().ok())
         .unwrap_or(default)
+}
+
+/// Generic `<family>-replay`: stdin holds protocol lines of one or more cases; `f` re-runs one case
+/// from its `case` + input lines and appends the new protocol lines.
+fn replay_stdin(w: &mut dyn Write, f: fn(&[String], &mut String) -> bool) {
+    let mut buf = String::new();
+    std::io::Read::read_to_string(&mut std::io::stdin(), &mut buf).unwrap();
+    let mut cur: Vec<String> = Vec::new();
+    let mut n = 0;
+    for l in buf.lines() {
+        if l.starts_with("case ") {
+            cur = vec![l.to_string()];
+        } else if l == "end" {
+            let mut s = String::new();
+            if !cur.is_empty() && f(&cur, &mut s) {
+                w.write_all(s.as_bytes()).unwrap();
+                n += 1;
+            }
+            cur.clear();
+        } else if !cur.is_empty() {
+            cur.push(l.to_string());
+        }
+    }
+    if n == 0 {
+        eprintln!("no replayable case on stdin");
+        std::process::exit(2);
+    }
 }
 
 fn main() {
@@ -238,6 +267,27 @@ fn main() {
                 std::process::exit(2);
             }
         }
+        "csvrt" => {
+            let mut r = rng::Rng::new(seed);
+            for i in 0..count {
+                let mut cr = r.fork();
+                let mut s = String::new();
+                csvrt::run_generated(seed, i, &mut cr, &mut s);
+                w.write_all(s.as_bytes()).unwrap();
+            }
+        }
+        "layout" => {
+            let mut r = rng::Rng::new(seed);
+            for i in 0..count {
+                let mut cr = r.fork();
+                let c = layout::gen_case(&mut cr);
+                let mut s = String::new();
+                layout::run_case(&format!("Y{}-{}", seed, i), &c, &mut s);
+                w.write_all(s.as_bytes()).unwrap();
+            }
+        }
+        "layout-replay" => replay_stdin(&mut w, layout::replay),
+        "csvrt-replay" => replay_stdin(&mut w, csvrt::replay),
         f => {
             eprintln!("unknown family {}", f);
             std::process::exit(2);
